@@ -34,6 +34,29 @@ static void check_digits(const uint8_t *t, uint64_t n, uint64_t mag, uint32_t ra
   ASSERT(n == 1 || t[0] != '0', "no leading zeros");
 }
 
+#ifdef CHAIN
+/* the same canonical form stated positionally: reading from the last character, digit k is (mag div radix^k) mod radix, computed as the
+ * successive-division chain (floor(floor(m/r)/r) = floor(m/r^2)); after the n digits nothing is left; no leading zero.  Equivalent to the
+ * Horner statement above (uniqueness of the positional representation) but free of multiplications, which is what lets the solver decide
+ * non-power-of-two radices at 32/64 bits. */
+static void check_digits_chain(const uint8_t *t, uint64_t n, uint64_t mag, uint32_t radix, int upper) {
+  ASSERT(n >= 1 && n <= DIGITS, "between 1 and <digits of the type> digits");
+#if BITS == 64
+  uint64_t m = mag;          /* the division chain at the width of the type (the same terms the implementation computes) */
+#else
+  uint32_t m = (uint32_t)mag;
+#endif
+  for (uint64_t k = 0; k < DIGITS; k++) if (k < n) {
+    uint8_t c = t[n - 1 - k];
+    ASSERT(c == digit_char((uint32_t)(m % radix), upper), "digit k from the right is (value div radix^k) mod radix, in the requested case");
+    m = m / radix;
+  }
+  ASSERT(m == 0, "the digits account for the whole value");
+  ASSERT(n == 1 || t[0] != '0', "no leading zeros");
+}
+#define check_digits check_digits_chain
+#endif
+
 int vp_harness_main(void) {
 #if OP == 1
   uint64_t raw = vp_in_u64(); uint64_t v = BITS == 64 ? raw : (raw & (((uint64_t)1 << (BITS % 64)) - 1));
